@@ -108,6 +108,20 @@ def finish(meta, patch, demo_src, keep):
     qualifies = all(meta.get(k) for k in ("patch_applies", "compiles", "demo_passes_without_change", "demo_fails_with_change", "existing_suites_pass_with_change"))
     meta["qualifies"] = bool(qualifies)
     d = os.path.join(ROOT, "seeded", "%s-%s" % (meta["property"], meta["label"]))
+    old = {}
+    if os.path.exists(os.path.join(d, "meta.json")):
+        try:
+            old = json.load(open(os.path.join(d, "meta.json")))
+        except ValueError:
+            old = {}
+    if not meta.get("needs_to_manifest") and old.get("needs_to_manifest"):
+        meta["needs_to_manifest"] = old["needs_to_manifest"]
+    hist = old.get("check_history", [])
+    if old.get("check") and not hist:
+        hist = [dict(when="first run", caught=old.get("caught"), messages=old["check"].get("first_messages", [])[:1])]
+    if meta.get("check"):
+        hist.append(dict(when=time.strftime("%Y-%m-%d %H:%M"), caught=meta.get("caught"), messages=meta["check"].get("first_messages", [])[:1]))
+    meta["check_history"] = hist
     if qualifies or keep:
         os.makedirs(d, exist_ok=True)
         shutil.copy(patch, os.path.join(d, "patch.diff"))
